@@ -42,14 +42,15 @@ var (
 
 // World is one loaded build configuration of /repo.
 type World struct {
-	Cfg   Config
-	Fset  *token.FileSet
-	Pkgs  map[string]*packages.Package
-	Prog  *ssa.Program
-	SPkgs map[string]*ssa.Package
-	cg    *callgraph.Graph
-	all   map[*ssa.Function]bool
-	mod   []*ssa.Function
+	Cfg     Config
+	Fset    *token.FileSet
+	Pkgs    map[string]*packages.Package
+	Prog    *ssa.Program
+	SPkgs   map[string]*ssa.Package
+	cg      *callgraph.Graph
+	all     map[*ssa.Function]bool
+	mod     []*ssa.Function
+	nwCache map[*ssa.Global]bool
 }
 
 func cleanEnv(extra []string) []string {
@@ -370,4 +371,57 @@ func (w *World) Callees(site ssa.CallInstruction) []*ssa.Function {
 		}
 	}
 	return out
+}
+
+// GlobalNeverWritten: no module function outside package initialisation stores into, updates or deletes from the global.
+func (w *World) GlobalNeverWritten(g *ssa.Global) bool {
+	if w.nwCache == nil {
+		w.nwCache = map[*ssa.Global]bool{}
+	}
+	if v, ok := w.nwCache[g]; ok {
+		return v
+	}
+	ok := true
+	for _, f := range w.ModuleFuncs() {
+		if isInit(f) {
+			continue
+		}
+		EachInstr(f, func(in ssa.Instruction) {
+			for _, op := range operandsOf(in) {
+				if op != ssa.Value(g) {
+					continue
+				}
+				// any use of the global's address other than a plain load may write it
+				if u, isLoad := in.(*ssa.UnOp); isLoad && u.Op == token.MUL {
+					// the loaded map/slice value must itself not be written: map updates, index stores, appends
+					if refs := u.Referrers(); refs != nil {
+						for _, r := range *refs {
+							switch y := r.(type) {
+							case *ssa.MapUpdate:
+								if y.Map == ssa.Value(u) {
+									ok = false
+								}
+							case *ssa.IndexAddr:
+								if rr := y.Referrers(); rr != nil {
+									for _, q := range *rr {
+										if st, isSt := q.(*ssa.Store); isSt && st.Addr == ssa.Value(y) {
+											ok = false
+										}
+									}
+								}
+							case ssa.CallInstruction:
+								if bu, isB := y.Common().Value.(*ssa.Builtin); isB && (bu.Name() == "delete" || bu.Name() == "clear" || bu.Name() == "append") {
+									ok = false
+								}
+							}
+						}
+					}
+					continue
+				}
+				ok = false
+			}
+		})
+	}
+	w.nwCache[g] = ok
+	return ok
 }
